@@ -588,4 +588,5 @@ func Corpus(thorough bool, yield func(Program)) {
 		F8(true, yield)
 	}
 	F9(yield)
+	F2Operand(yield)
 }
